@@ -300,7 +300,8 @@ class Printer:
         m = self._memo_s.get(key)
         if m is not None:
             return m[1]
-        r = intern(self._s(n, arith))
+        txt = self._s(n, arith)
+        r = txt if (txt.startswith("#") and txt[1:].isdigit()) else intern(txt)
         self._memo_s[key] = (n, r)
         return r
 
@@ -329,6 +330,9 @@ class Printer:
         if isinstance(n, ast.Attribute):
             return f"{self.s(n.value)}.{n.attr}"
         if isinstance(n, ast.Subscript):
+            if isinstance(n.value, (ast.Tuple, ast.List)) and isinstance(n.slice, ast.Constant) and isinstance(n.slice.value, int) \
+                    and -len(n.value.elts) <= n.slice.value < len(n.value.elts) and not any(isinstance(x, ast.Starred) for x in n.value.elts):
+                return self.s(n.value.elts[n.slice.value])
             return f"{self.s(n.value)}[{self.s(n.slice)}]"
         if isinstance(n, ast.Slice):
             return f"{self.s(n.lower)}:{self.s(n.upper)}:{self.s(n.step)}"
@@ -634,7 +638,7 @@ class Exec:
             return self._call(e, st, bound)
         if isinstance(e, ast.IfExp):
             t, a, b = self._ev(e.test, st, bound), self._ev(e.body, st, bound), self._ev(e.orelse, st, bound)
-            return _minmax(t, a, b) or ast.IfExp(t, a, b)
+            return _minmax(t, a, b, self.printer) or ast.IfExp(t, a, b)
         if isinstance(e, ast.BoolOp) and len(e.values) >= 2:
             # `a or b` is `a if a else b`, `a and b` is `b if a else a` (as a test this decides the same way)
             vals = [self._ev(v, st, bound) for v in e.values]
@@ -914,14 +918,14 @@ class Exec:
                         # not bound in one arm: the name keeps what it denoted before (a parameter, a global)
                         va = va if va is not None else _name(k)
                         vb = vb if vb is not None else _name(k)
-                    merged.env[k] = va if (va is vb or _same(va, vb)) else (_minmax(test, va, vb) or ast.IfExp(test, va, vb))
+                    merged.env[k] = va if (va is vb or _same(va, vb)) else (_minmax(test, va, vb, self.printer) or ast.IfExp(test, va, vb))
                 for k in set(sa.stores) | set(sb.stores):
                     va, vb = sa.stores.get(k), sb.stores.get(k)
                     if va is None:
                         va = _attr_from_key(k)
                     if vb is None:
                         vb = _attr_from_key(k)
-                    merged.stores[k] = va if (va is vb or _same(va, vb)) else (_minmax(test, va, vb) or ast.IfExp(test, va, vb))
+                    merged.stores[k] = va if (va is vb or _same(va, vb)) else (_minmax(test, va, vb, self.printer) or ast.IfExp(test, va, vb))
                 return [(merged, FALL, None)]
         return a + b
 
@@ -1069,6 +1073,10 @@ class Exec:
                     items.append(("exitarg", k.arg, k.value))
             else:
                 items.append(("exit", kind, v))
+        elif isinstance(v, ast.BinOp) and kind == RET and isinstance(v.op, (ast.Add, ast.Sub)) and _size(v) > 200:
+            items.append(("exit", kind, ast.Constant(f"<{type(v.op).__name__}>")))
+            items.append(("exitarg", "left", v.left))
+            items.append(("exitarg", "right", v.right))
         else:
             items.append(("exit", kind, v))
         for k in sorted(st.stores):
@@ -1136,7 +1144,9 @@ class Exec:
             if raised is not None:
                 leaves.add((cset, (("exit", RAISE, self.printer.s(raised)),)))
             else:
-                leaves.add((cset, tuple(x for x in (self._item_canon(it) for it in new_items) if not (x[0] == "store" and x[2] == "$same"))))
+                outc = tuple(x for x in (self._item_canon(it) for it in new_items) if not (x[0] == "store" and x[2] == "$same"))
+                if outc:
+                    leaves.add((cset, outc))
             return
         k = ask[0]
         for v in (True, False):
@@ -1304,7 +1314,7 @@ class Exec:
                 pass
         if tag == "exit":
             return (tag, it[1], self.printer.s(it[2]) if isinstance(it[2], ast.AST) else None)
-        if tag in ("store", "final"):
+        if tag in ("store", "final", "exitarg"):
             return (tag, it[1], self.printer.s(it[2]) if isinstance(it[2], ast.AST) else "$undef")
         if tag == "effect":
             return (tag, it[1], _eff_canon(it[2], self.printer))
@@ -1492,19 +1502,26 @@ def _const_fold(call: ast.Call):
     return None
 
 
-def _minmax(t, a, b):
+def _minmax(t, a, b, pr=None):
     """`a if a < b else b` (or <=) is min(a, b); with > / >= max(a, b)"""
     if isinstance(t, ast.Compare) and len(t.ops) == 1 and isinstance(t.ops[0], (ast.Lt, ast.LtE, ast.Gt, ast.GtE)):
-        if _size(a) + _size(b) > 400:
-            return None
-        l, r = _dump(t.left), _dump(t.comparators[0])
-        da, db = _dump(a), _dump(b)
+        tl, tr = t.left, t.comparators[0]
+        if pr is not None:
+            try:
+                l, r, da, db = pr.s(tl), pr.s(tr), pr.s(a), pr.s(b)
+            except Giveup:
+                return None
+        elif (tl is a and tr is b) or (tl is b and tr is a):
+            l, r, da, db = ("a", "b", "a", "b") if tl is a else ("b", "a", "a", "b")
+        else:
+            if _size(a) + _size(b) > 400:
+                return None
+            l, r, da, db = _dump(tl), _dump(tr), _dump(a), _dump(b)
         if {l, r} == {da, db} and da != db:
             less = isinstance(t.ops[0], (ast.Lt, ast.LtE))
             picks_left = l == da
             fn = "min" if less == picks_left else "max"
-            args = sorted([a, b], key=_dump)
-            return ast.Call(_name(fn), args, [])
+            return ast.Call(_name(fn), [a, b], [])
     return None
 
 
@@ -1575,7 +1592,7 @@ def summary(fn: ast.FunctionDef, ctx: ModCtx, cls: str | None):
     leaves: set = set()
     for st, kind, val in ex.block(body, State()):
         leaves |= ex.leafset(st, kind, val, finals=[])
-    return sig, frozenset(leaves)
+    return sig, frozenset(_minimise(leaves))
 
 
 # ---------------------------------------------------------------------------------------------------------------------
@@ -1629,7 +1646,7 @@ def chunked(stmts: list[ast.stmt], ctx: ModCtx, cls: str | None, live_after: set
             for s2, kind, val in ex.block(list(group), State()):
                 finals = [(v, s2.env.get(v, _name(v))) for v in sorted(assigned)] if kind == FALL else []
                 leaves |= ex.leafset(s2, kind, val, finals=finals)
-            out.append(("sem", frozenset(leaves)))
+            out.append(("sem", frozenset(_minimise(leaves))))
             i = j
             continue
         later = _loads(stmts[i + 1:]) | live_after
